@@ -229,6 +229,64 @@ theorem c08_half_close_counterexample :
        [.send (mkError 1 cApplicationError)],
        [.send (mkRequestN 1 5)]] := by decide +kernel
 
+/-! ### the request frame precedes on_subscribe (defect F18, repaired by 315146e) -/
+
+/-- whichever requester entry point hands the application its subscription (`on_subscribe`) has,
+in the same entry point and immediately before, queued the request frame of that stream: whatever
+the subscriber does inside `on_subscribe` (request(n), cancel) is queued after the frame that opens
+the stream (before the repair REQUEST_N / CANCEL could overtake it: F18). -/
+theorem c08_request_frame_precedes_on_subscribe (st : State) (hc : st.closed = false) (ev : Ev)
+    (hev : (∃ d n, ev = .requestStream d n true) ∨ (∃ d n p, ev = .requestChannel d n p true) ∨ (∃ o, ev = .subscribe o))
+    (oid : Nat) (h : Out.onSubscribe oid ∈ (step st ev).2) :
+    ∃ a g, isInitiate g.ty = true ∧ (step st ev).2 = a ++ [.send g, .onSubscribe oid] := by
+  rcases hev with ⟨d, n, rfl⟩ | ⟨d, n, p, rfl⟩ | ⟨o, rfl⟩
+  · have hs : (step st (.requestStream d n true)).2 = (apiStep st (.requestStream d n true)).2 := by simp [step, State.emit, hc]
+    rw [hs] at h ⊢
+    simp only [apiStep] at h ⊢
+    generalize allocate st = r at h ⊢
+    rcases r with ⟨_ | sid, st1⟩ <;> simp only at h ⊢
+    · simp at h
+    · by_cases hn : n = 0
+      · simp [hn] at h
+      · simp only [hn, if_false, if_true] at h ⊢
+        simp only [List.mem_cons, reduceCtorEq, Out.onSubscribe.injEq, List.mem_nil_iff, or_false, false_or] at h
+        subst h
+        exact ⟨[.created _ sid], _, rfl, rfl⟩
+  · have hs : (step st (.requestChannel d n p true)).2 = (apiStep st (.requestChannel d n p true)).2 := by simp [step, State.emit, hc]
+    rw [hs] at h ⊢
+    simp only [apiStep] at h ⊢
+    generalize allocate st = r at h ⊢
+    rcases r with ⟨_ | sid, st1⟩ <;> simp only at h ⊢
+    · simp at h
+    · by_cases hn : n = 0
+      · simp [hn] at h
+      · simp only [hn, if_false, if_true] at h ⊢
+        cases p <;> simp at h <;> subst h
+        · refine ⟨[_], _, ?_, rfl⟩; rfl
+        · refine ⟨[_, _], _, ?_, rfl⟩; rfl
+  · have hs : (step st (.subscribe o)).2 = (apiStep st (.subscribe o)).2 := by simp [step, State.emit, hc]
+    rw [hs] at h ⊢
+    simp only [apiStep] at h ⊢
+    split at h
+    · rename_i s hso
+      split at h
+      · simp at h
+      · rename_i hsub
+        cases hk : s.kind <;> simp only [hk] at h ⊢
+        all_goals try (simp at h; done)
+        · simp at h; subst h
+          rw [if_neg hsub]
+          refine ⟨[], _, ?_, rfl⟩; rfl
+        · cases hp : s.pubGiven <;> simp [hp] at h <;> subst h
+          · rw [if_neg hsub]; simp only
+            refine ⟨[], _, ?_, rfl⟩; rfl
+          · rw [if_neg hsub]; simp only
+            refine ⟨[_], _, ?_, rfl⟩; rfl
+    · simp at h
+
+example : (step (init 1) (.requestStream [1] 2 true)).2 =
+    [.created 0 1] ++ [.send { ty := .requestStream, sid := 1, n := 2, data := [1] }, .onSubscribe 0] := by decide +kernel
+
 /-! ### from queueing order to wire order -/
 
 /-- every per-stream fact above is about the order in which the engine *queues* frames
